@@ -72,9 +72,16 @@ pub trait CallCount {
 
 const TARGET_CHARS: &[char] = &['/', 'a', 'b', '.', '-', '0', ' ', ',', ';', '"', '<', '=', '\\', 'é', '😁', ':', '?'];
 const KEYS: &[&str] = &[
-    "rt", "if", "sz", "title", "ct", "obs", "title*", "k", "x-y_z", "a1", "anchor", "rel", "rel", "rt",
+    "rt", "if", "sz", "title", "ct", "obs", "title*", "k", "x-y_z", "a1", "anchor", "rel", "rel", "rt", "lt", "ct", "sz",
     "x-a-rather-long-attribute-name", "registration-lifetime-seconds-0123456789", "k0123456789012345678", "k01234567890123456789", "k012345678901234567890123456",
 ];
+/// numbers with a meaning in some registry (content formats, typical sizes / lifetimes) next to the boundaries
+pub const NUMBERS: &[u32] = &[0, 1, 9, 10, 40, 41, 42, 47, 50, 60, 61, 62, 99, 100, 110, 112, 255, 256, 999, 1000, 1024, 10000, 11542, 11543, 65535, 65536, 86400, 16_777_216, 4_294_967_295];
+/// texts that look like numbers (or like other literals) without being their canonical spelling
+pub const NUMBER_LIKE: &[&str] = &["0", "00", "060", "007", "+1024", "+0", "-0", "-1", "1e3", "0x10", " 1", "1 ", "4294967295", "4294967296", "04294967295", "65536", "065535", "١٢", "1_000", "1.0", "true", "false", "null", "NaN", "40", "40 ", "0b1"];
+/// multi-character sequences with a meaning in neighbouring grammars (header folding, percent and
+/// MIME encodings, escapes of escapes), for insertion into otherwise random text
+pub const DICTIONARY: &[&str] = &["\r\n ", "\r\n\t", "\r\n", "\n\r", "\n ", "\\\"", "\\\\", "\"\"", "%22", "%5C", "=?UTF-8?Q?a?=", "\\\r\n ", "\u{0}", "&quot;", "\\u0022", "\\x22", "\\,", "\\;", "*=UTF-8''a"];
 pub const VALUE_ALPHABET: &[char] = &['"', '\\', ',', ';', '<', '>', '=', ' ', '\n', '\r', 'a', '0', 'é', '😁'];
 
 /// code points whose low byte (or low 16 bits) equals a structural ASCII character: " \ , ; < > =
@@ -102,6 +109,20 @@ fn gen_target(r: &mut Rng) -> String {
 }
 
 fn gen_value(r: &mut Rng) -> String {
+    let mut v = gen_value_plain(r);
+    if r.chance(1, 5) {
+        // a dictionary sequence somewhere in the value
+        let at = r.usize_below(v.chars().count() + 1);
+        let byte = v.char_indices().nth(at).map(|x| x.0).unwrap_or(v.len());
+        v.insert_str(byte, *r.pick(DICTIONARY));
+    }
+    v
+}
+
+fn gen_value_plain(r: &mut Rng) -> String {
+    if r.chance(1, 8) {
+        return r.pick(NUMBER_LIKE).to_string();
+    }
     match r.below(6) {
         0 => String::new(),
         1 => {
@@ -151,8 +172,8 @@ pub fn gen_doc(r: &mut Rng, min_links: usize) -> Doc {
                     .map(|_| {
                         let k = r.pick(KEYS).to_string();
                         let v = match r.below(6) {
-                            0 => AttrKind::U32(if r.bool() { r.next_u64() as u32 } else { *r.pick(&[0u32, 1, 40, u32::MAX]) }),
-                            1 => AttrKind::U16(r.next_u64() as u16),
+                            0 => AttrKind::U32(if r.bool() { r.next_u64() as u32 } else { *r.pick(NUMBERS) }),
+                            1 => AttrKind::U16(if r.bool() { r.next_u64() as u16 } else { *r.pick(NUMBERS) as u16 }),
                             2 | 3 => AttrKind::Plain(gen_value(r)),
                             _ => AttrKind::Quoted(gen_value(r)),
                         };
@@ -395,6 +416,33 @@ pub fn run_c16(ctx: &mut Ctx) {
             }
         }
     }
+    if shard == 0 || level == 0 {
+        // number-like texts and registry numbers under keys that usually hold numbers: the text written is the text read
+        for (ki, key) in ["ct", "sz", "lt", "rt", "obs", "title", "k"].iter().enumerate() {
+            if level == 0 && ki % 3 != 0 {
+                continue;
+            }
+            for (vi, text) in NUMBER_LIKE.iter().map(|t| t.to_string()).chain(NUMBERS.iter().map(|n| n.to_string())).enumerate() {
+                let doc = vec![
+                    Link { target: "/n".into(), attrs: vec![(key.to_string(), AttrKind::Plain(text.clone())), ("end".into(), AttrKind::U16(1))] },
+                    Link { target: "/m".into(), attrs: vec![("a".into(), AttrKind::Plain("b".into())), (key.to_string(), AttrKind::Quoted(text.clone()))] },
+                    Link { target: "/o".into(), attrs: vec![(key.to_string(), AttrKind::Plain(text.clone()))] },
+                ];
+                c16_one(rep, &doc, vi % 2 == 0);
+                rep.distinct(fnv(describe(&doc).as_bytes()));
+                rep.count("number_like_documents");
+            }
+            for n in NUMBERS {
+                let doc = vec![
+                    Link { target: "/n".into(), attrs: vec![(key.to_string(), AttrKind::U32(*n)), ("end".into(), AttrKind::Plain("x".into()))] },
+                    Link { target: "/m".into(), attrs: vec![("a".into(), AttrKind::Plain("b".into())), (key.to_string(), AttrKind::U16(*n as u16))] },
+                ];
+                c16_one(rep, &doc, n % 2 == 0);
+                rep.distinct(fnv(describe(&doc).as_bytes()));
+                rep.count("number_like_documents");
+            }
+        }
+    }
     for _ in 0..budget {
         let doc = gen_doc(&mut r, 0);
         let nl = r.bool();
@@ -632,6 +680,38 @@ pub fn run_c17(ctx: &mut Ctx) {
             }
         }
     }
+    // a third exhaustive walk, inside a quoted value, over line breaks / tabs / escapes
+    {
+        let q_alpha: [char; 8] = ['"', '\r', '\n', ' ', '\t', 'a', '\\', ';'];
+        let q_max = match level {
+            0 => 3,
+            1 => 5,
+            _ => 6,
+        };
+        let b = q_alpha.len() as u64;
+        let mut inner = String::new();
+        for len in 0..=q_max {
+            for v in 0..b.pow(len as u32) {
+                idx += 1;
+                if idx % nshards != shard {
+                    continue;
+                }
+                inner.clear();
+                let mut x = v;
+                for _ in 0..len {
+                    inner.push(q_alpha[(x % b) as usize]);
+                    x /= b;
+                }
+                let before = stats.2;
+                c17_one(rep, &format!("</x>;title=\"{}\"", inner), &mut stats);
+                c17_one(rep, &format!("</x>;title=\"{}", inner), &mut stats);
+                if stats.2 > before {
+                    rep.distinct_enumerated();
+                }
+                rep.count("quoted_value_walk_strings");
+            }
+        }
+    }
     // random longer strings over a wider alphabet
     let wide: Vec<char> = C17_ALPHABET.iter().copied().chain(['😁', '\n', '\r', '\t', 'Z', '0', '/', '*', '\u{7ff}', '\u{800}', '\u{a0}', '\u{3000}', '\u{85}', '\u{2028}', '\u{2003}', '\u{feff}', '\u{b}', '\u{c}']).chain(lookalikes()).collect();
     for _ in 0..budget {
@@ -642,6 +722,27 @@ pub fn run_c17(ctx: &mut Ctx) {
         }
         c17_one(rep, &t, &mut stats);
         rep.distinct(fnv(t.as_bytes()));
+    }
+    // random text built from characters AND multi-character dictionary sequences, placed where values live
+    for i in 0..budget {
+        let n = r.usize_below(14);
+        let mut inner = String::new();
+        for _ in 0..n {
+            if r.chance(1, 4) {
+                inner.push_str(*r.pick(DICTIONARY));
+            } else {
+                inner.push(*r.pick(&wide));
+            }
+        }
+        let doc = match i % 4 {
+            0 => format!("</x>;title=\"{}\"", inner),
+            1 => format!("</x>;title=\"{}\";rt=\"y\",</z>;k=\"{}", inner, inner),
+            2 => format!("</x>;k={}", inner),
+            _ => format!("<{}>;a=\"{}\";b", inner, inner),
+        };
+        c17_one(rep, &doc, &mut stats);
+        rep.distinct(fnv(doc.as_bytes()));
+        rep.count("dictionary_strings");
     }
     // every prefix (on char boundaries) of well-formed documents
     let ndocs = if level == 0 { 1 } else { (budget / 20).max(5) };
@@ -778,6 +879,26 @@ pub fn run_c18(ctx: &mut Ctx) {
         ];
         c18_doc(rep, &doc, &mut stats, 1);
         rep.distinct(fnv(describe(&doc).as_bytes()));
+    }
+    // numeric attributes: registry numbers and boundaries under the keys that usually carry them,
+    // behind another attribute so that every earlier sink call can be the failing one
+    if level > 0 {
+        let mut di = 0u64;
+        for key in ["ct", "sz", "lt", "rt", "obs", "title", "k"] {
+            for n in NUMBERS {
+                di += 1;
+                if di % ctx_nshards != shard {
+                    continue;
+                }
+                let doc = vec![
+                    Link { target: "/.well-known/core".into(), attrs: vec![(key.to_string(), AttrKind::U16(*n as u16)), (key.to_string(), AttrKind::U32(*n))] },
+                    Link { target: "/n".into(), attrs: vec![("rt".into(), AttrKind::Plain("x".into())), (key.to_string(), AttrKind::U32(*n)), (key.to_string(), AttrKind::U16(*n as u16))] },
+                ];
+                rep.distinct(fnv(describe(&doc).as_bytes()));
+                c18_doc(rep, &doc, &mut stats, 1);
+                rep.count("numeric_attribute_documents");
+            }
+        }
     }
     // quoted values of EVERY length up to 200 bytes (a writer that batches its output has internal
     // boundaries somewhere), plain and with escapes / multi-byte characters at varying offsets
